@@ -56,4 +56,4 @@ LEVEL_TEXT = ('Bounded symbolic verification: (1) for every operator with a dist
               'factor. Bit-for-bit reproducibility is derived from C11, not decided.')
 LEVEL_NOTE = 'exact arithmetic; T <= 4 (32 on a 7-vector); symbolic entries at <= 24 positions of the 10001-vectors; bitwise reproducibility not decided'
 TECHNIQUE = 'symbolic execution of LLVM IR (llsym) incl. clang\'s OpenMP lowering run for T modelled threads + SMT (z3 QF_NRA / cvc5 QF_LRA)'
-DESIGN_REF = 'DESIGN.md section 6/C12'
+DESIGN_REF = 'DESIGN.md section 0 (status as built: 0.2, 0.5, 0.6) and section 6/C12 (design)'
